@@ -104,6 +104,14 @@ CLAIMED = {
    note="Handlers are driven in-process; the binaries add http.ServeMux path cleaning in front of them.",
    technique="TLA+ decision-table spec checked by TLC; exhaustive table replay on the real handlers validated by TLC",
    design="4/C15"),
+ "C14": dict(
+   text="HttpRetry.tla defines the outcome a caller must see for a server response script and a retry budget (Required) and the loop as implemented; TLC "
+        "proves them equal and proves the statement's clauses for all scripts of length <= 4-5. The real HTTP chunk and index clients run against a "
+        "scripted server with real connection resets and short bodies for every short script and budget, the real client/handler pair in all 16 "
+        "compression/verify combinations, and the real RemoteSSH store against the real `desync pull` behind a fake ssh; every record is judged by the spec.",
+   note="S3/SFTP/GCS are not reachable offline. Keep-alives are off on the scripted server to exclude net/http's own transparent retries.",
+   technique="TLA+ spec of the retry/outcome function checked by TLC; trace validation of recorded client calls",
+   design="4/C14"),
 }
 
 NOT_YET = "check not built yet in this round (planned in DESIGN.md section 4)"
